@@ -114,7 +114,7 @@ def vol_block_length_chain(F, S):
     good = False
     det = "no SectionHeader construction"
     if ctor:
-        a = wf.term(ctor[0]["args"][1])
+        a = wf.xterm(ctor[0]["args"][1])
         det = fmt_term(a)
         good = a[0] == "mem" and a[2] == "fileSize" and a[1][0] == "idx" and a[1][1][0] == "mem" and a[1][1][2] == "indexEntries"
     req = "the block header length written is indexEntries[i].fileSize"
